@@ -44,6 +44,7 @@ FamilyCase(nm) ==
               LET e == CHOOSE x \in AllScale(ByteSizes[i]) : x.name = nm
               IN [bytes |-> e.bytes, head |-> e.head, item |-> e.item, reps |-> e.reps, tail |-> e.tail, post |-> e.post]]]
 ScaleInit == Fixed /\ \E nm \in FamilyNames : c = FamilyCase(nm)
+MatrixInit == EnumInit \/ ScaleInit
 MatrixNext == UNCHANGED gvars
 EmitMatrix == PrintT(<<"CASE", ToJson(c)>>)
 =============================================================================
